@@ -14,7 +14,9 @@ Open Scope N_scope.
 Definition W32 : N := 4294967296.
 Definition MASK32 : N := 4294967295.
 
-Definition add32 (a b : N) : N := (a + b) mod W32.
+(* (a + b) mod 2^32, written with a mask: N.land is linear in the extracted binary representation,
+   N.modulo is a long division (add32_mod below) *)
+Definition add32 (a b : N) : N := N.land (a + b) MASK32.
 Definition rotr (n x : N) : N := N.lor (N.shiftr x n) (N.land (N.shiftl x (32 - n)) MASK32).
 Definition shr (n x : N) : N := N.shiftr x n.
 Definition not32 (x : N) : N := N.lxor x MASK32.
@@ -109,6 +111,9 @@ Definition sha256 (msg : list N) : list N :=
   word_bytes (se st) ++ word_bytes (sf st) ++ word_bytes (sg st) ++ word_bytes (sh st).
 
 (* ------------------------------------------------------------------ *)
+Lemma add32_mod a b : add32 a b = (a + b) mod W32.
+Proof. unfold add32. change MASK32 with (N.ones 32). rewrite N.land_ones. reflexivity. Qed.
+
 Lemma word_bytes_ok w : bytes_ok (word_bytes w) = true /\ length (word_bytes w) = 4%nat.
 Proof.
   split; [|reflexivity]. unfold word_bytes, bytes_ok, forallb, is_byte.
